@@ -36,7 +36,7 @@ typedef struct Session {
 typedef struct { SessionId sid; iora_slice payload; } SendReq;
 
 typedef struct { size_t ioReadChunk; size_t maxWriteQueue; bool closeOnBackpressure; bool useEdgeTriggered;
-                 iora_duration connectTimeout, handshakeTimeout, writeStallTimeout; } TransportConfig;
+                 iora_duration connectTimeout, handshakeTimeout, writeStallTimeout; struct { bool enabled; } clientTls, serverTls; } TransportConfig;
 typedef struct { uint64_t accepted, connected, closed, errors, tlsHandshakes, tlsFailures, bytesIn, bytesOut, epollWakeups, commands,
                  gcRuns, gcClosedIdle, gcClosedAged, backpressureCloses; size_t sessionsCurrent, sessionsPeak; } AtomicStats;
 typedef struct { bool onAccept, onConnect, onData, onClose, onError; } Callbacks;      /* std::function: empty or set */
@@ -46,6 +46,7 @@ typedef struct iora_timer_service TimerService;
 IORA_MAP1(iora_sessmap, SessionId, Session *)
 IORA_MAP1(iora_tagmap, int, void *)            /* _fdTags: fd -> unique_ptr<Tag> */
 
+#ifndef IORA_TCP_CUSTOM_ENGINE      /* a unit may define its own image of class TcpEngine (other container models) before including this header */
 typedef struct TcpEngine {
   TransportConfig _config; AtomicStats _atomicStats;
   int _epollFd;
@@ -54,6 +55,7 @@ typedef struct TcpEngine {
   iora_sessmap _sessions; iora_tagmap _fdTags;
   TimerService *_timerService;
 } TcpEngine;
+#endif
 
 /* ---------------- epoll ---------------- */
 #define EPOLLIN 0x001u
@@ -100,9 +102,11 @@ static inline void iora_timer_cancel(TimerService *ts, uint64_t id)
  * read inconsistently; make every _Bool field a proper nondeterministic boolean */
 static inline void iora_canon_session(Session *s)
 { s->tlsWantWrite = nondet_bool(); s->wantWrite = nondet_bool(); s->closed = nondet_bool(); s->connectPending = nondet_bool(); }
+#ifndef IORA_TCP_CUSTOM_ENGINE
 static inline void iora_canon_engine(TcpEngine *e)
 { e->_config.closeOnBackpressure = nondet_bool(); e->_config.useEdgeTriggered = nondet_bool();
   e->_cbs.onAccept = nondet_bool(); e->_cbs.onConnect = nondet_bool(); e->_cbs.onData = nondet_bool(); e->_cbs.onClose = nondet_bool(); e->_cbs.onError = nondet_bool();
   e->_cbMutex.held = nondet_bool(); e->_sessionRwMutex.held = nondet_bool(); e->_sessions.has = nondet_bool(); e->_fdTags.has = nondet_bool(); }
+#endif
 #endif
 #endif
